@@ -61,6 +61,22 @@ func genC14(g *G, n int, out io.Writer) {
 	enc := json.NewEncoder(out)
 	for i := 0; i < n; i++ {
 		c := C14Case{Op: "c14", Id: i}
+		// one case in five names its nodes hierarchically: every id extends the previous one by a path segment or a fragment, a
+		// linked node's id extends its parent's. Which file a node was declared in is said by the listings, never by what its id looks like
+		hier := i%5 == 2
+		nodeId := func(k int) string {
+			if !hier {
+				return nodeId(k)
+			}
+			id := NodeNS + "root"
+			for j := 1; j <= k%1000; j++ {
+				id += []string{"/examples/e", "/items/", "#/frag", "/x"}[j%4] + fmt.Sprint(j)
+			}
+			if k >= 1000 {
+				id += "/kid"
+			}
+			return id
+		}
 		nT := 1 + g.n(6)
 		var nodes []map[string]any
 		for k := 0; k < nT; k++ {
